@@ -89,6 +89,7 @@ K_NOCKPT = "no-checkpoint-written"
 K_OUT = "reloaded-output-differs"
 K_STEP = "reloaded-training-step-differs"
 K_VTYPE = "reloaded-variable-type-differs"
+K_ALIAS = "two-loads-of-one-file-share-storage"
 
 POISON_F = -777.0
 POISON_I = -7
@@ -786,6 +787,29 @@ def module_item(item, col):
                 except Exception as e:  # noqa: BLE001
                     col.tick(1)
                     col.violation(SIG.format(route.split("(")[0] + "/load_pickle", K_RAISE), dict(base, version=k, raised=f"{type(e).__name__}: {str(e)[:300]}"))
+            # the same file name rewritten at every version ("latest.pkl") and read back at once, twice: the reload must show
+            # THIS version, and the two loaded modules must be independent objects
+            latest = os.path.join(tmp, "latest.pkl")
+            try:
+                serialize.save_pickle(latest, m)
+                alt1, alt2 = build(kind, s, alt=True), build(kind, s, alt=True)
+                g1 = serialize.load_pickle(latest, nnx.graphdef(alt1))
+                g2 = serialize.load_pickle(latest, nnx.graphdef(alt2))
+                col.tick(2, (kind, pset, s, k, "same-file-name") if k > 0 else None)
+                col.outcome("reloads_of_a_rewritten_file_name")
+                for g in (g1, g2):
+                    if snap(g) != ver["snap"]:
+                        stale = next((j for j in range(len(versions)) if versions[j]["snap"] == snap(g)), None)
+                        col.violation(SIG.format("save_pickle/load_pickle", K_STATE), dict(base, version=k, file="rewritten under the same name", equals_version=stale))
+                        break
+                else:
+                    before2 = snap(g2)
+                    train_step(kind, g1, xs[0])
+                    if snap(g1) != ver["snap"] and snap(g2) != before2:
+                        col.violation(SIG.format("save_pickle/load_pickle", K_ALIAS), dict(base, version=k))
+            except Exception as e:  # noqa: BLE001
+                col.tick(1)
+                col.violation(SIG.format("save_pickle/load_pickle", K_RAISE), dict(base, version=k, file="rewritten under the same name", raised=f"{type(e).__name__}: {str(e)[:300]}"))
             for route, lg, kw in (("OrbaxCheckpointer.record_epoch", ock, dict(step=k + 1)), ("StandardLogger.record_epoch", slg, {})):
                 n0 = len(lg.checkpoint_path["net"])
                 try:
